@@ -47,7 +47,7 @@ MIN_REACH = {'wcs_helpers:WCSHelper.pix2sky': 1, 'wcs_helpers:WCSHelper.sky2pix'
              'wcs_helpers:WCSHelper.sky2pix_ellipse': 1, 'wcs_helpers:WCSHelper.pix2sky_ellipse': 1,
              'wcs_helpers:WCSHelper.get_psf_pix2pix': 1, 'wcs_helpers:WCSHelper.get_psf_sky2pix': 1,
              'wcs_helpers:WCSHelper.get_psf_sky2sky': 1, 'wcs_helpers:WCSHelper.get_skybeam': 1,
-             'wcs_helpers:WCSHelper.get_beamarea_pix': 1, 'wcs_helpers:WCSHelper.psf_sky2pix': 1}
+             'wcs_helpers:WCSHelper.get_beamarea_pix': 1, 'wcs_helpers:WCSHelper.psf_sky2pix': 1, 'wcs_helpers:WCSHelper.from_file': 1, 'wcs_helpers:get_beam': 1}
 MIN_COUNTERS = {'contract_pix2sky': 1000, 'contract_sky2pix': 1000, 'contract_sky2pix_vec': 500,
                 'contract_pix2sky_vec': 500, 'contract_sky2pix_ellipse': 500, 'contract_pix2sky_ellipse': 500,
                 'east_of_north_checked': 50, 'psf_roundtrip_checked': 10, 'nonsquare_ellipse_roundtrips': 100,
@@ -57,7 +57,10 @@ MIN_COUNTERS = {'contract_pix2sky': 1000, 'contract_sky2pix': 1000, 'contract_sk
                 'psfmap_lookups_transposition_sensitive': 100, 'psfmap_areas_judged': 200,
                 'sequence_helpers_judged': 100, 'sequence_rotated_helpers_judged': 40, 'sequence_lookups_judged': 500,
                 'sip_header_cases': 6, 'sip_header_cases_with_inverse_polynomials': 2, 'psfmap_small_cols_maps': 3,
-                'psfmap_small_rows_maps': 3, 'psfmap_beyond_edge_probes_judged': 150}
+                'psfmap_small_rows_maps': 3, 'psfmap_beyond_edge_probes_judged': 150,
+                'ctor_supplied_beam_helpers': 100, 'ctor_supplied_beam_header_same_beam': 30,
+                'ctor_supplied_beam_header_different_beam': 30, 'ctor_supplied_beam_header_no_beam_keywords': 30,
+                'ctor_lookups_judged': 1000}
 
 TOL_PIX = 1e-6       # pixels, statement
 TOL_SKY = 1e-9       # degrees, statement
@@ -758,6 +761,8 @@ def cases(seed, tier):
             out.append(_psfmap_case(rng_for(seed, 'psfmap', proj, k), proj, k, seed, 40 if q else 80))
         for k in range(2 if q else 8):
             out.append(_sequence_case(rng_for(seed, 'sequence', proj, k), proj, k, seed))
+        for k in range(3 if q else 9):
+            out.append(_ctor_case(rng_for(seed, 'ctor', proj, k), proj, k, seed))
     return out
 
 
@@ -791,6 +796,8 @@ def run(case):
         return _run_psfmap(case, wcs_helpers)
     if case['kind'] == 'sequence':
         return _run_sequence(case, wcs_helpers)
+    if case['kind'] == 'ctor':
+        return _run_ctor(case, wcs_helpers)
     o = Obs()
     set_obs(o)
     try:
@@ -1392,6 +1399,85 @@ def _run_sequence(case, wcs_helpers):
         return o.result()
     finally:
         set_obs(None)
+
+
+# ----------------------------------------------------------------------------- the constructor's arguments
+def _ctor_case(rng, proj, k, seed):
+    """a beam SUPPLIED to from_header / from_file while the header carries the same beam, a different beam, or no beam
+    keywords: everything the helper says about the beam must describe the supplied one"""
+    c = _header_case(rng, proj, k, 0, seed)
+    c['kind'] = 'ctor'
+    c['form'] = ['square', 'pc_rot', 'flipped'][k % 3]
+    c['rot'] = 35.0 if c['form'] == 'pc_rot' else 0.0
+    c['use_cd'] = False
+    scale = float(10 ** rng.uniform(0, np.log10(45.0))) / 3600.0
+    c['cdelt'] = [(1.0 if c['form'] == 'flipped' else -1.0) * scale, scale]
+    c['shape'] = [int(rng.integers(60, 300)), int(rng.integers(60, 300))]
+    c['crpix'] = [c['shape'][1] / 2.0 + float(rng.uniform(-10, 10)), c['shape'][0] / 2.0 + float(rng.uniform(-10, 10))]
+    a = float(rng.uniform(3.0, 6.0)) * scale
+    c['supplied_beam'] = [a, a * float(rng.uniform(0.3, 0.8)), float(rng.uniform(-90, 90))]
+    a2 = float(rng.uniform(6.5, 9.0)) * scale
+    c['other_beam'] = [a2, a2 * float(rng.uniform(0.85, 1.0)), float(rng.uniform(-90, 90))]
+    c['seed'] = [seed, 'ctor', proj, k]
+    return c
+
+
+def _run_ctor(case, wcs_helpers):
+    from astropy.io import fits
+    o = Obs()
+    set_obs(o)
+    tmp = scratch_dir()
+    try:
+        rng = rng_for(*case['seed'])
+        rows, cols = case['shape']
+        sup = tuple(min(v, 0.09) if i < 2 else v for i, v in enumerate(case['supplied_beam']))
+        oth = tuple(min(v, 0.09) if i < 2 else v for i, v in enumerate(case['other_beam']))
+        nvar = 0
+        for hb_name, hb in (('same_beam', sup), ('different_beam', oth), ('no_beam_keywords', None), ('bpa_missing', 'nobpa')):
+            hdr = _build_header(case, oth if hb == 'nobpa' else hb)
+            if hb == 'nobpa':
+                del hdr['BPA']                      # header beam then reads (BMAJ, BMIN, 0)
+            z = _oracle_from_header(hdr)
+            path = os.path.join(tmp, 'img_%s.fits' % hb_name)
+            fits.PrimaryHDU(np.zeros((rows, cols), dtype=np.float32), header=hdr).writeto(path, overwrite=True)
+            for how in ('from_header', 'from_file', 'from_header_positional'):
+                wit = {'constructor': how, 'header_has': hb_name, 'supplied_beam': list(sup),
+                       'header_beam': None if hb is None else [hdr.get('BMAJ'), hdr.get('BMIN'), hdr.get('BPA')],
+                       'proj': case['proj'], 'crval': case['crval'], 'cdelt': case['cdelt'], 'form': case['form']}
+                bm = wcs_helpers.Beam(*sup)
+                if how == 'from_header':
+                    w = _subject(o, wit, how, lambda: wcs_helpers.WCSHelper.from_header(hdr, beam=bm))
+                elif how == 'from_file':
+                    w = _subject(o, wit, how, lambda: wcs_helpers.WCSHelper.from_file(path, beam=bm))
+                else:
+                    w = _subject(o, wit, how, lambda: wcs_helpers.WCSHelper.from_header(hdr, bm))
+                if w is None:
+                    continue
+                if getattr(w, '_aegmon_zwcs', None) is None:
+                    raise RuntimeError('oracle was not attached to the helper')
+                o.count('ctor_supplied_beam_helpers')
+                o.count('ctor_supplied_beam_header_' + hb_name)
+                o.see('ctor_constructors', how)
+                o.n_eval += 1
+                nvar += 1
+                got = [float(w.beam.a), float(w.beam.b), float(w.beam.pa)]
+                if got != [float(v) for v in sup]:
+                    o.violate('supplied_beam_not_used', dict(wit, helper_beam=got))
+                _judge_nomap_psf(o, w, z, sup, rng, rows, cols, wit, prefix='ctor', nprobe=2)
+            # control: nothing supplied -> the header beam (when there is one)
+            if hb is not None and hb != 'nobpa':
+                wit = {'constructor': 'from_file, no beam supplied', 'header_has': hb_name, 'header_beam': list(hb),
+                       'proj': case['proj'], 'crval': case['crval'], 'cdelt': case['cdelt']}
+                w = _subject(o, wit, 'from_file', lambda: wcs_helpers.WCSHelper.from_file(path))
+                if w is not None:
+                    o.count('ctor_header_beam_helpers')
+                    _judge_nomap_psf(o, w, z, hb, rng, rows, cols, wit, prefix='ctor', nprobe=1)
+        o.n_nontrivial += nvar
+        o.sample = {'supplied_beam': list(sup), 'other_beam': list(oth), 'helpers': nvar}
+        return o.result()
+    finally:
+        set_obs(None)
+        shutil.rmtree(tmp, ignore_errors=True)
 
 
 def fold(cases, results, tier):
